@@ -14,7 +14,7 @@ from tranpsim.persist import Project, library_seed
 from tranpsim.proc import sim_process
 
 LIB_MODULES = ['typing', 'enum', 'collections.abc', 'rogw.tranp.compatible.libralies.type', 'rogw.tranp.compatible.libralies.classes']
-QUERY_KINDS = ['by', 'exists', 'parent', 'ancestor', 'siblings', 'children', 'expand', 'values', 'id', 'source_map', 'n.parent', 'n.scope', 'n.fullyname', 'n.tokens', 'n.namespace', 'n.procedural', 'n.props', 'clear', 'by-missing']
+QUERY_KINDS = ['by', 'exists', 'parent', 'ancestor', 'siblings', 'children', 'expand', 'values', 'id', 'source_map', 'n.parent', 'n.scope', 'n.fullyname', 'n.tokens', 'n.namespace', 'n.procedural', 'n.props', 'n._siblings', 'n._children', 'n._under_expand', 'n._at', 'clear', 'by-missing']
 GRAMMAR_TAGS = ['file_input', 'class_def', 'class_def_raw', 'function_def', 'function_def_raw', 'block', 'if_stmt', 'if_clause', 'assign', 'anno_assign', 'var', 'name', 'funccall', 'getattr', 'arguments', 'argvalue',
 	'number', 'string', 'return_stmt', 'import_stmt', 'dotted_name', 'parameters', 'paramvalue', 'typedparam', 'typed_var', 'list', 'dict', 'key_value', 'sum', 'term', 'comparison', 'for_stmt', 'while_stmt', 'NAME', 'DEC_NUMBER', 'STRING', 'zz', 'foo', 'bar_baz']
 
@@ -164,6 +164,14 @@ class Driver:
 			return answer(lambda: n.tokens)
 		if kind == 'n.procedural':
 			return self.touch_all(answer(lambda: [node_ref(x) for x in n.procedural()][:400]))
+		if kind == 'n._siblings':
+			return self.touch_all(answer(lambda: [node_ref(x) for x in n._siblings()]))
+		if kind == 'n._children':
+			return self.touch_all(answer(lambda: [node_ref(x) for x in n._children()]))
+		if kind == 'n._under_expand':
+			return self.touch_all(answer(lambda: [node_ref(x) for x in n._under_expand()]))
+		if kind == 'n._at':
+			return self.touch(answer(lambda: node_ref(n._at(q['p'] % 3))))
 		if kind == 'n.props':
 			def props() -> Any:
 				out = []
